@@ -315,3 +315,30 @@ func CountNew(xs, vs []int) (int, int) {
 	}
 	return added*100 + seen, len(xs)
 }
+
+// a function that returns a closure (translated uncurried); comma-ok assertion to an interface type;
+// a method value as the returned function
+type Scaler interface{ Scale(x int) int }
+type fastScaler interface{ Fast(x int) int }
+
+type Dbl struct{}
+
+func (Dbl) Scale(x int) int { return 2*x + 1 }
+
+type Quick struct{ Dbl }
+
+func (Quick) Fast(x int) int { return 100 - x }
+
+func MakeScale(s Scaler, k int) func(x int) (r int) {
+	if s, ok := s.(fastScaler); ok {
+		return s.Fast
+	}
+	k2 := k * 2
+	return func(x int) (r int) {
+		for r < x {
+			r += k2
+		}
+		r = s.Scale(r)
+		return
+	}
+}
